@@ -343,4 +343,24 @@ def tickStep (c : Cfg) (s : St) (e : Env) : St × List Event :=
   if tickSkipped e then (dropStash s e, [])
   else seq (supStep c e) (reminderStep c e) (dropStash s e)
 
+/-! ## The checkable's side of a request (checkable-notification.cpp:33-63) -/
+
+/-- What `Checkable::SendNotifications` reads of the checkable itself before it reaches a notification object:
+    `force_next_notification` (a [state] attribute: it survives reloads and restarts) and whether this notification
+    object is among `GetNotifications()` at all (objects appear and disappear with config reloads, apply rules and
+    API-created objects). -/
+structure CkSt where
+  force : Bool := false
+  attached : Bool := true
+  deriving DecidableEq, Repr
+
+/-- checkable-notification.cpp:39-41: every request reads the flag and resets it, first thing — before the enable
+    flags (:43-49) and before the "no notification objects" return (:55-63).  Returns the new state and the `force`
+    of this request. -/
+def ckRequest (k : CkSt) : CkSt × Bool := ({ k with force := false }, k.force)
+
+/-- `SetForceNextNotification(true)`: send-custom-notification API action / SEND_CUSTOM_*_NOTIFICATION with the
+    force option, right before the request it is meant for (apiactions.cpp, externalcommandprocessor.cpp). -/
+def ckSetForce (k : CkSt) : CkSt := { k with force := true }
+
 end Icinga.C03
